@@ -46,6 +46,14 @@ emit("ps5", va(table.unpack({1, 2, 3, 4, 5, 6, 7, 8, 9, 10, 11, 12}, 1, %d %% 12
 	// cells shared between closures after the frame is gone
 	`local function counter() local c = %d %% 5 return function() c = c + 1 return c end, function() return c end end
 local inc, get = counter() inc() inc() emit("ps7", get(), %d)`,
+	// debug hooks inspecting the stack at call / return / tail-call time (the continuation pools must
+	// not recycle a continuation the hook can still see)
+	`do local function leaf(x) return x + %d end local function mid(x) local y = leaf(x) return y * 2 end local function tail(x) return mid(x) end
+local seen = {} debug.sethook(function(ev) local info = debug.getinfo(2) seen[#seen + 1] = ev .. ":" .. tostring(info and info.name) .. ":" .. tostring(info and info.currentline) end, "cr")
+local r = tail(%d) debug.sethook() emit("ps9", r, table.concat(seen, " ")) end`,
+	// traceback from inside nested calls and from a coroutine
+	`do local function a(n) if n == 0 then return (debug.traceback("tb", 1):gsub("0x%%x+", "PTR")) end return (a(n - 1)) end
+emit("ps10", a(%d %% 6), %d) end`,
 	// string building through pooled continuations
 	`local parts = {} for i = 1, %d %% 30 + 1 do parts[#parts + 1] = tostring(i):rep(2) end emit("ps8", table.concat(parts, "-"), %d)`,
 }
